@@ -155,7 +155,7 @@ func makeUniverse(r *rand.Rand, primary string, n int) (Universe, bool) {
 	case kind <= 7:
 		L = 32
 	case kind == 8:
-		L = 64 + r.IntN(137) // long digests that differ late
+		L = 64 + r.IntN(260) // long digests that differ late (up to 323 bytes: key lengths beyond one byte)
 	default:
 		L = 8
 		mixed = true
@@ -238,6 +238,29 @@ func makeUniverse(r *rand.Rand, primary string, n int) (Universe, bool) {
 		}
 		have[string(d)] = true
 		ds = append(ds, d)
+	}
+	// Two keys that agree in their first 250 bytes are not generated: the index stores the distinguishing
+	// prefix length in one byte, so two keys of one bucket sharing 255 or more bytes behind the bucket bytes
+	// cannot be told apart (known finding C01-F1 / C08-F1, exercised by its own reproducer).
+	if L > 250 {
+		var keep [][]byte
+		for _, d := range ds {
+			ok := true
+			for _, e := range keep {
+				n := 0
+				for n < len(d) && n < len(e) && d[n] == e[n] {
+					n++
+				}
+				if n >= 250 {
+					ok = false
+					break
+				}
+			}
+			if ok {
+				keep = append(keep, d)
+			}
+		}
+		ds = keep
 	}
 	if len(ds) < 2 {
 		return Universe{}, false
